@@ -2,7 +2,10 @@
 
 package machos
 
-import "bytes"
+import (
+	"bytes"
+	"encoding/binary"
+)
 
 // H11.macho: scanFile on an arbitrary byte string presented as a Mach-O
 // header (magic of either width and byte order fixed per path, everything
@@ -36,5 +39,39 @@ func VH_C11_MachoScan() {
 		vhAssert(m != nil, "result-non-nil")
 	} else {
 		vhReach("rejected") // vh:require rejected
+	}
+}
+
+// H11.macho-sig: re-signing a Mach-O whose LC_CODE_SIGNATURE command (from
+// the untrusted file) states an ARBITRARY 32-bit offset and length for the
+// existing signature, and whose __LINKEDIT command states an arbitrary size: scanFile + PatchSignature return an error or a patch -
+// no buffer sized by the stated numbers beyond relic's own 10 MB cap on a plausible
+// signature.
+func VH_C11_MachoSignatureLength() {
+	file := vhMacho(make([]byte, vhTextLen), make([]byte, 8), make([]byte, 8))
+	// the signature load command is the last 16 bytes of the load commands:
+	// cmd, cmdsize, offset, length
+	le := binary.LittleEndian
+	end := 28 + int(le.Uint32(file[20:]))
+	off, ln := vhU32("stated-offset"), vhU32("stated-length")
+	le.PutUint32(file[end-8:], off)
+	le.PutUint32(file[end-4:], ln)
+	// the __LINKEDIT segment command (second LC_SEGMENT) states the segment's
+	// file size, which is what the signature has to end with: arbitrary too
+	le.PutUint32(file[28+56+68+36:], vhU32("stated-linkedit-size"))
+	vhAllocLimit(10e6 + 4<<20) // relic's own cap on a plausible signature is 10 MB (as in verify and dmg.Open)
+	vhLoopBound(400)
+	vhMaxLen(1024)
+	m, err := scanFile(bytes.NewReader(file))
+	if err != nil {
+		vhReach("rejected") // vh:require rejected
+		return
+	}
+	hdr := append([]byte{}, file[:m.nextLc]...)
+	_, _, _, _, _, err = m.PatchSignature(hdr, 4096)
+	if err == nil {
+		vhReach("patched") // vh:require patched
+	} else {
+		vhReach("refused")
 	}
 }
